@@ -197,6 +197,21 @@ def mc_task(logic, n, ftxts, opts=None):
                 h.ctx.call(mcmod.modelcheck, [K2, f], kw)
                 res3 = h.ctx.call(mcmod.modelcheck, [h.K, f], kw)
                 extra_pairs['determ'] = vec(res3, st)
+                if logic in ('CTL', 'CTLS'):
+                    # the same checker called with the OTHER kind of arguments in between (with a fairness constraint if this call has
+                    # none, without if it has one), on the other structure; whatever that call does or raises is not the subject here
+                    kw2 = dict(kw)
+                    if 'F' in kw2:
+                        del kw2['F']
+                    else:
+                        Pall = MSet()
+                        for i in range(n):
+                            Pall.put(st[i], True)
+                        kw2['F'] = MList([Pall])
+                    c_other = see.Ctx(h.vm, see.Frame('<other-args>'), h.ctx.g)
+                    c_other.call(mcmod.modelcheck, [K2, f], kw2)
+                    res4 = h.ctx.call(mcmod.modelcheck, [h.K, f], kw)
+                    extra_pairs['determ_args'] = vec(res4, st)
             if extra_pairs:
                 excg = exc_guard(h.fr)
                 mut = mutated(h.K, snap)
